@@ -18,6 +18,16 @@ import math
 import time as _time
 
 EPOCH = _dt.datetime(1970, 1, 1)
+_real_monotonic = _time.monotonic
+_real_sleep = _time.sleep
+
+
+class Deadlock(RuntimeError):
+    """the loop has nothing ready and no timer, and stayed like that for IDLE_LIMIT_S of real time
+    (threads of an executor answer within milliseconds): whatever is awaited will never finish"""
+
+
+IDLE_LIMIT_S = 10.0
 
 
 class VLoop(asyncio.SelectorEventLoop):
@@ -26,6 +36,7 @@ class VLoop(asyncio.SelectorEventLoop):
         self._vus = 0
         self.iter_latency_us = 0
         self.iterations = 0
+        self._idle_since = None
 
     def time(self):
         return self._vus / 1e6
@@ -53,6 +64,16 @@ class VLoop(asyncio.SelectorEventLoop):
     def _run_once(self):
         self.iterations += 1
         nxt = self.next_timer_us()
+        if not self._ready and nxt is None:
+            now = _real_monotonic()
+            if self._idle_since is None:
+                self._idle_since = now
+            elif now - self._idle_since > IDLE_LIMIT_S:
+                self._idle_since = None
+                raise Deadlock('event loop idle forever: nothing ready, no timer scheduled')
+            _real_sleep(0.0005)         # do not burn a core while waiting for an executor thread
+        else:
+            self._idle_since = None
         if not self._ready and nxt is not None and nxt > self._vus and not getattr(self, 'hold', False):
             self._vus = nxt
         self._vus += self.iter_latency_us
